@@ -143,6 +143,24 @@ def run_case(case, rng):
     case.check(float(d1.prob("__foreign__")) == 0.0, "foreign-event-has-probability", "")
     case.check(set(d1.support) == set(r1), "support-differs", f"{list(d1.support)!r}")
 
+    # ---- a copy (copy.copy / copy.deepcopy / pickle round trip / .copy() where offered) describes the same measure ------
+    if rng.random() < 0.5:
+        import copy as _copy
+        import pickle as _pickle
+        how = rng.choice(["copy.copy", "copy.deepcopy", "pickle"])
+        cp = case.call(how, {"copy.copy": _copy.copy, "copy.deepcopy": _copy.deepcopy,
+                             "pickle": lambda d_: _pickle.loads(_pickle.dumps(d_))}[how], d1, facts=facts)
+        case.count("copies_compared")
+        if cp is not case.FAIL and hasattr(cp, "items"):
+            same(case, dict(as_dict(cp)), r1, "copy:describes-a-different-measure", detail=how, **facts)
+            if hasattr(cp, "sample"):
+                sd_ = rng.randrange(10 ** 6)
+                a_ = [d1.sample(rng=_random.Random(sd_)) for _ in range(5)]
+                b_ = case.call("sample(copy)", lambda: [cp.sample(rng=_random.Random(sd_)) for _ in range(5)], facts=facts)
+                if b_ is not case.FAIL:
+                    case.check(a_ == b_, "copy:samples-differ-from-the-original's-under-an-equal-seed", lambda: f"{how}: {a_!r} vs {b_!r}")
+            same(case, d1, r1, "copy:copying-changed-the-original", detail=how, **facts)
+
     # ---- marginalize ----------------------------------------------------------------------------
     buckets = rng.randint(1, 3)
     if rng.random() < 0.5:
